@@ -51,8 +51,11 @@ func beforeEnd(logTime, end uint64) bool {
 // use AfterNanos instead.
 func After(start int64) ReadOpt {
 	return func(ro *ReadOptions) error {
-		if ro.End < start {
-			return fmt.Errorf("end cannot come before start")
+		if start < 0 {
+			start = 0
+		}
+		if err := AfterNanos(uint64(start))(ro); err != nil {
+			return err
 		}
 		ro.Start = start
 		return nil
@@ -65,8 +68,11 @@ func After(start int64) ReadOpt {
 // use BeforeNanos instead.
 func Before(end int64) ReadOpt {
 	return func(ro *ReadOptions) error {
-		if end < ro.Start {
+		if end < 0 {
 			return fmt.Errorf("end cannot come before start")
+		}
+		if err := BeforeNanos(uint64(end))(ro); err != nil {
+			return err
 		}
 		ro.End = end
 		return nil
